@@ -2,6 +2,7 @@
    norm <p> | dirname <p> | join <a> <b> | abspath <cwd> <p> | expanduser <home> <p>   -> hex
    root <cwd> <home> <cart>                                  -> hex
    inc|incpre <cwd> <home> <cart> <inc> <file,file,...>      -> OK <hex> | ERR <name>   (incpre: string-prefix variant)
+   incacc <cwd> <home> <cart> <inc> <files>                  -> <p:hex,o:hex|~> <raised true|false>
    filter|filterold <req>                                    -> true|false
    cands <file_path> <lua_path> <req>                        -> hex,hex,...
    eff <arg|~> <env|~>                                       -> hex          (~ = None)
@@ -25,6 +26,11 @@ let handle fields =
   | ["incpre"; c; h; f; i; files] ->
     let fl = hexlist files in
     res (resolve_include_prefix (bytes_of_hex c) (bytes_of_hex h) (fun p -> List.mem p fl) (bytes_of_hex f) (bytes_of_hex i))
+  | ["incacc"; c; h; f; i; files] ->
+    let fl = hexlist files in
+    let (evs, raised) = include_accesses_now (bytes_of_hex c) (bytes_of_hex h) (fun p -> List.mem p fl) (bytes_of_hex f) (bytes_of_hex i) in
+    (match evs with [] -> "~" | _ -> String.concat "," (List.map (fun (o, p) -> (if o then "o:" else "p:") ^ hex_of_bytes p) evs))
+    ^ " " ^ string_of_bool raised
   | ["filter"; r] -> string_of_bool (require_filter_now (bytes_of_hex r))
   | ["filterold"; r] -> string_of_bool (require_filter_old (bytes_of_hex r))
   | ["cands"; f; l; r] ->
